@@ -25,6 +25,9 @@ var iosNoise = []string{
 	"line vty 0 4\n transport input ssh\n exec-timeout 5 0\n",
 	"router ospf 1\n network 10.0.0.0 0.255.255.255 area 0\n",
 	"ntp server 10.1.1.1\n",
+	// unmodelled sections whose lines look like ACL entries
+	"ipv6 access-list unm6\n permit ipv6 host 1000::1 any\n deny ipv6 any any\n",
+	"ip access-list standard unm-std\n permit 10.9.9.0 0.0.0.255\n deny any\n",
 }
 
 // toplevelPositions returns the byte offsets at which a toplevel block
